@@ -179,17 +179,22 @@ fn get_highlight(line: &str, highlight_start: usize, highlight_end: usize) -> St
         // Point to a single character.
         style(r"/\".to_owned()).yellow().bold()
     } else {
+        // The number of characters to highlight. A span can start behind the characters we display for its line
+        // (ex: at the '\r' of a "\r\n" line ending, which is counted as a column but not displayed); in that
+        // case there is nothing to highlight on this line.
+        let highlighted_chars = highlight_end.saturating_sub(highlight_start);
+
         // Number of tabs between the start and end of the highlight.
         let highlight_tab_count = line
             .chars()
             .skip(highlight_start)
-            .take(highlight_end - highlight_start)
+            .take(highlighted_chars)
             .filter(|c| *c == '\t')
             .count();
 
         // Since tab is only 1 character, we have to account for the extra 3 characters that are displayed
         // for each tab.
-        let highlight_length = (highlight_end - highlight_start) + (highlight_tab_count * (EXPANDED_TAB.len() - 1));
+        let highlight_length = highlighted_chars + (highlight_tab_count * (EXPANDED_TAB.len() - 1));
         style(format!("{:-<1$}", "", highlight_length)).yellow().bold()
     };
 
